@@ -1,5 +1,7 @@
 import Deltio.Lemmas.SubRun
 import Deltio.Props.C02
+import Deltio.Lemmas.Expire
+import Deltio.Lemmas.Timer
 /-
   C04 — Unacked deliveries are redelivered at the ack deadline, never earlier.
   Time is µs since the process epoch; `now` arguments are universally quantified.
@@ -50,40 +52,8 @@ theorem C04_at_deadline {s : SubState} (h : SubInv s) (d : Deliv) (hd : d ∈ s.
     (hdl : d.deadline ≤ now) :
     let s' := (s.turn (.expire now)).1
     d.msg ∈ s'.backlog ∧ (∀ x ∈ s'.out.msgs, x.ack ≠ d.ack) ∧ s'.out.lookup d.ack = none ∧
-    (s.turn (.expire now)).2.notified = true ∧ d.ack < s'.nextAck ∧ (s.turn (.expire now)).2.ub = false := by
-  simp only [SubState.turn]
-  obtain ⟨t', ds, he, hi⟩ := Inv_takeExpired h.out now
-  rw [he]
-  obtain ⟨_, hp, h3, h4⟩ := takeExpired_spec h.out now he
-  have hmem := (hp.mem_iff (a := d)).mpr hd
-  simp only [List.mem_append] at hmem
-  have hds : d ∈ ds := by
-    rcases hmem with h1 | h1
-    · have := h4 d h1; omega
-    · exact h1
-  have hne : ds.isEmpty = false := by
-    cases ds with
-    | nil => simp at hds
-    | cons _ _ => rfl
-  simp only [hne, Bool.false_eq_true, ↓reduceIte]
-  have hnotin : ∀ x ∈ t'.msgs, x.ack ≠ d.ack := by
-    intro x hx hxa
-    have hxm : x ∈ s.out.msgs := (hp.mem_iff).mp (List.mem_append_left _ hx)
-    have : x = d := ack_unique h.out.nodup hxm hd hxa
-    subst this
-    have := h4 x hx
-    omega
-  refine ⟨?_, hnotin, ?_, ?_, h.acks d hd, trivial⟩
-  · exact List.mem_append_right _ (List.mem_map_of_mem hds)
-  · unfold Tracker.lookup
-    apply List.find?_eq_none.mpr
-    intro x hx
-    simpa using hnotin x hx
-  · have : (s.backlog ++ List.map (fun x => x.msg) ds).isEmpty = false := by
-      cases ds with
-      | nil => simp at hds
-      | cons y ys => cases s.backlog <;> simp
-    simp [this]
+    (s.turn (.expire now)).2.notified = true ∧ d.ack < s'.nextAck ∧ (s.turn (.expire now)).2.ub = false :=
+  at_deadline h d hd now hdl
 
 /-- Redelivery carries a new ack id: whatever a later turn delivers has an ack id above the old. -/
 theorem C04_new_ack_id {s : SubState} (h : SubInv s) (d : Deliv) (hd : d ∈ s.out.msgs) (ts : List SubTurn) (u : SubTurn) :
@@ -134,5 +104,20 @@ example :
     let s := (SubState.init 10000000).exec [.post [⟨7, [], [], 0⟩], .pull 5 30000]
     s.out.msgs.map (·.deadline) = [10060000] ∧
     (s.exec [.expire 10059999]).out.msgs.length = 1 ∧ (s.exec [.expire 10060000]).backlog.length = 1 := by decide
+
+/-! ### System level: the timer loop -/
+
+/-- C04 (system model, no StreamingPull open, at most 10^6 deliveries outstanding): after the clock
+    has been advanced to `target` on the timer grid, every delivery that is still outstanding has its
+    deadline's timer tick after `target` — nothing stays leased beyond its deadline by a whole tick;
+    what expired was requeued by the expiry turns of the loop (`C04_at_deadline`). -/
+theorem C04_advance_not_late (sys : Sys) (target : Nat) (hs : sys.streams = []) (hok : SubsOk sys)
+    (hinv : SysInv sys) (hfuel : sys.totalOut ≤ 1000000) :
+    ∀ e ∈ (Sys.advanceTo 0 1000000 target sys).subs, ∀ dv ∈ e.st.out.msgs, target < ceilMs dv.deadline := by
+  have hset := advanceTo_settled 0 1000000 target sys hs hok (SidsUnique_of_SysInv hinv) hfuel
+  have hok' : SubsOk (Sys.advanceTo 0 1000000 target sys) := SubsOk_advanceTo _ _ _ hok
+  intro e he dv hdv
+  have := settled_not_late hok' 0 target hset e he dv hdv
+  omega
 
 end Deltio
